@@ -40,3 +40,53 @@ def register(reg):
         a, v = z3.Const(fresh_name("a"), z3.ArraySort(S, B)), z3.Const(fresh_name("v"), z3.ArraySort(S, Val))
         st.assume(z3.ForAll([a, v], z3.And(CONF(a, v) >= 0, CONF(a, v) <= 1), patterns=[CONF(a, v)]))
         return SV(lty, r)
+
+    @reg.external("copy.deepcopy")
+    def deepcopy(eng, st, ctx, args, kw, node):
+        """deepcopy of a row (dict str -> value): same keys; scalar values equal; every contained dictionary is a fresh dictionary
+        with the same content (contained lists: fresh, content not tracked)"""
+        x = args[0]
+        if x.ty == List(ROW):
+            # a fresh list of fresh rows, one per row and in order, each with the keys and scalar values of its original
+            n = st.list_len(x.ty, x.t)
+            e = st.list_elems(x.ty, x.t)
+            lo = st.alloc
+            hi = z3.Int(fresh_name("alloc"))
+            st.assume(hi >= lo)
+            cpr = z3.Function(fresh_name("dcrow"), I, I)
+            j, j2 = z3.Int(fresh_name("j")), z3.Int(fresh_name("j2"))
+            st.assume(z3.ForAll([j], z3.Implies(z3.And(0 <= j, j < n), z3.And(lo <= cpr(j), cpr(j) < hi)), patterns=[cpr(j)]))
+            st.assume(z3.ForAll([j, j2], z3.Implies(z3.And(0 <= j, j < j2, j2 < n), cpr(j) != cpr(j2))))
+            dom = st.arr("D.str.val.dom", z3.ArraySort(I, z3.ArraySort(S, B)))
+            val = st.arr("D.str.val.val", z3.ArraySort(I, z3.ArraySort(S, Val)))
+            kk = z3.Const(fresh_name("k"), S)
+            st.assume(z3.ForAll([j], z3.Implies(z3.And(0 <= j, j < n), dom[cpr(j)] == dom[e[j]]), patterns=[dom[cpr(j)]]))
+            st.assume(z3.ForAll([j, kk], z3.Implies(z3.And(0 <= j, j < n, z3.Not(Val.is_VRef(val[e[j]][kk]))), val[cpr(j)][kk] == val[e[j]][kk]),
+                                patterns=[val[cpr(j)][kk]]))
+            st.assume(z3.ForAll([j, kk], z3.Implies(z3.And(0 <= j, j < n, Val.is_VRef(val[e[j]][kk])),
+                                                    z3.And(Val.is_VRef(val[cpr(j)][kk]), lo <= Val.ref(val[cpr(j)][kk]), Val.ref(val[cpr(j)][kk]) < hi)),
+                                patterns=[val[cpr(j)][kk]]))
+            st.alloc = hi
+            r = st.new_ref()
+            st.set_list(x.ty, r, n, eng.named_array(st, j, cpr(j), "dclist"))
+            return SV(x.ty, r)
+        if x.ty != ROW:
+            raise Unsupported("deepcopy of %r" % x.ty)
+        dom, val = st.dict_dom(ROW, x.t), st.dict_val(ROW, x.t)
+        r = st.new_ref()
+        nv = z3.Const(fresh_name("dcval"), val.sort())
+        cp = z3.Function(fresh_name("dcref"), S, I)
+        k, k2 = z3.Const(fresh_name("k"), S), z3.Const(fresh_name("k2"), S)
+        lo = st.alloc
+        hi = z3.Int(fresh_name("alloc"))
+        st.assume(hi >= lo)
+        st.assume(z3.ForAll([k], z3.If(Val.is_VRef(val[k]), z3.And(nv[k] == Val.VRef(cp(k)), lo <= cp(k), cp(k) < hi), nv[k] == val[k]),
+                            patterns=[nv[k]]))
+        st.assume(z3.ForAll([k, k2], z3.Implies(z3.And(k != k2, Val.is_VRef(val[k]), Val.is_VRef(val[k2])), cp(k) != cp(k2))))
+        # contained composition dictionaries keep their content
+        for name, sort in (("D.str.int.dom", z3.ArraySort(I, z3.ArraySort(S, B))), ("D.str.int.val", z3.ArraySort(I, z3.ArraySort(S, I)))):
+            a = st.arr(name, sort)
+            st.assume(z3.ForAll([k], z3.Implies(Val.is_VRef(val[k]), a[cp(k)] == a[Val.ref(val[k])]), patterns=[a[cp(k)]]))
+        st.alloc = hi
+        st.set_dict(ROW, r, dom, nv)
+        return SV(ROW, r)
